@@ -149,6 +149,7 @@ Definition obs_clean (o : obs) : bool :=
   match o with
   | OStart _ _ kw | ODefault _ kw => kw_clean kw
   | OSave _ v | OSetResult _ v => clean v
+  | OHide _ => false                        (* nothing is ever invalidated in a plain run *)
   | _ => true
   end.
 
